@@ -73,9 +73,9 @@ def _held_starts(T, env, b, sa):
     for bb in sorted(b.reachable(0)):
         if b.blocks[bb]["cleanup"]:
             continue
-        if T.admission_fact(ctx, bb) is not None:
+        if T.admission_fact(ctx, bb, own_only=b.is_closure) is not None:
             # first blocks carrying the fact
-            if not any(T.admission_fact(ctx, p) is not None for p in b.preds()[bb]):
+            if not any(T.admission_fact(ctx, p, own_only=b.is_closure) is not None for p in b.preds()[bb]):
                 starts.append(bb)
     if not starts:
         for bb in sorted(b.reachable(0)):
@@ -185,7 +185,7 @@ def rule_live(env, shared):
     # (c) must-pass-through release
     for (b, sa) in T.universe:
         rk = receiver_kind(b, F)
-        rel = T.release_blocks(b, sa)
+        rel = T.must_release_blocks(b, sa)
         starts = _held_starts(T, env, b, sa)
         entry_held = False
         if not starts:
@@ -194,7 +194,10 @@ def rule_live(env, shared):
             touches = any(T.is_cell_get(e) or T.is_inner_next(e) for e in T.direct_events(b, sa))
             if touches and (b.is_closure or True):
                 h = T.held(b, sa, 0)
-                if h[0] and rel:
+                # a continuation closure owns the duty to release; an ordinary helper that merely runs inside its callers'
+                # held regions returns to a caller that still holds the ticket: the caller is judged (with this helper
+                # counting as a release only if it releases on every path)
+                if h[0] and rel and b.is_closure:
                     starts = [0]
                     entry_held = True
         if not starts:
@@ -390,7 +393,7 @@ def rule_unw(env, shared):
         rk = receiver_kind(b, F)
         if rk in ("value", "mut") and F.impl_self_adt(b) == T.adt:
             continue
-        rel = T.release_blocks(b, sa)
+        rel = T.must_release_blocks(b, sa)
         # guard locals of this body
         glocals = [i for i, l in enumerate(b.locals) if (l["ty"].get("adt") or "") in guards or
                    any(g.split("::")[-1] in l["ty"]["s"] and g in l["ty"]["s"] for g in guards)]
@@ -416,6 +419,22 @@ def rule_unw(env, shared):
                 continue
             if t["k"] == "call" and _no_unwind(env, b, bb, T):
                 continue
+            if t["k"] == "call":
+                # a crate-local helper that runs inside its callers' held regions is judged as a body of its own: every
+                # unwinding site inside it needs a guard *there* (which then runs before the unwinding reaches this frame)
+                c0 = b.callee(bb)
+                if c0 is not None and not c0.indirect:
+                    d0 = F.resolve_callee(c0, sa, env._bind(b, T.world))
+                    if d0 and d0 in F.bodies:
+                        cb0 = F.bodies[d0]
+                        csa0 = F.impl_self_adt(cb0) or sa
+                        if (cb0.def_, csa0) in {(x.def_, y) for (x, y) in T.universe} and not cb0.is_closure \
+                                and receiver_kind(cb0, F) not in ("value",) and T.held(cb0, csa0, 0)[0]:
+                            k0 = "UNW|%s|call %s|judged-in-callee" % (env.fname(b), c0.key)
+                            if not any(o.key == k0 for o in out):
+                                out.append(Ob("UNW", k0, "ok", b.file_line(t["loc"]),
+                                              "unwinding can only start inside the helper, which runs held and is judged there"))
+                            continue
             if t["k"] == "assert" and t["msg"] in ("MisalignedPointer", "NullPointer"):
                 continue
             if t["k"] == "drop":
